@@ -20,6 +20,9 @@ type axisSource struct {
 	kind  string // "axis", "axes", "perm", "indices"
 	props []string
 	negOK bool // negative values are meaningful (ONNX allows negative spelling)
+	// entry i of the list belongs to entry i of sibling lists (starts/ends/steps) or is a position in its own
+	// right (perm, indices): the list must never be reordered
+	ordered bool
 	arm9a map[string]bool
 }
 
@@ -30,9 +33,9 @@ var axisSources = []axisSource{
 	{op: "Unsqueeze", input: 1, kind: "axes", props: []string{"C07"}, negOK: true},
 	{op: "Concat", field: "axis", input: -1, kind: "axis", props: []string{"C08"}, negOK: true},
 	{op: "Gather", field: "axis", input: -1, kind: "axis", props: []string{"C08"}, negOK: true},
-	{op: "Gather", input: 1, kind: "indices", props: []string{"C08"}, negOK: true},
-	{op: "Slice", input: 3, kind: "axes", props: []string{"C08"}, negOK: true},
-	{op: "Transpose", field: "perm", input: -1, kind: "perm", props: []string{"C08"}, negOK: false},
+	{op: "Gather", input: 1, kind: "indices", props: []string{"C08"}, negOK: true, ordered: true},
+	{op: "Slice", input: 3, kind: "axes", props: []string{"C08"}, negOK: true, ordered: true},
+	{op: "Transpose", field: "perm", input: -1, kind: "perm", props: []string{"C08"}, negOK: false, ordered: true},
 	{op: "ArgMax", field: "axis", input: -1, kind: "axis", props: []string{"C09"}, negOK: true},
 	{op: "ReduceMax", field: "axes", input: -1, kind: "axes", props: []string{"C09"}, negOK: true},
 	{op: "ReduceMin", field: "axes", input: -1, kind: "axes", props: []string{"C09"}, negOK: true},
@@ -216,6 +219,15 @@ func ruleR9(c *Ctx, prop string) {
 					bk := nk.(*ssa.BinOp)
 					later := bk.Parent() != bo.Parent() || (bk.Block() != bo.Block() && bk.Block().Dominates(bo.Block()))
 					if Nk.has(x) && later {
+						// harmless when a rejecting lower bound stands before the FIRST shift: nothing below -rank gets that far
+						xk := bk.X
+						if !D.has(xk) {
+							xk = bk.Y
+						}
+						if lo, _ := c.validatedValueAt(bk.Parent(), xk, bk.Block(), D, apply, 0); lo {
+							c.counts["R9.second_normalisers_after_lower_bound"]++
+							continue
+						}
 						c.violate("R9", fmt.Sprintf("R9b:%s:normalised-twice@%s", label, fname(bo.Parent())), c.pos(bo.Pos()),
 							fmt.Sprintf("a user-supplied %s that was already shifted by the rank once (at %s) is shifted again here when still negative: values in [-2*rank, -rank-1] end up in range and are accepted instead of refused", src.kind, c.pos(nk.(*ssa.BinOp).Pos())))
 					}
@@ -262,6 +274,40 @@ func ruleR9(c *Ctx, prop string) {
 		}
 		if len(sinks) == 0 {
 			c.undecided("R9", "R9a:"+label+":no-sink", c.pos(apply.Pos()), "the user-supplied "+src.kind+" reaches no use at all: unrecognised factoring (or the value is ignored)")
+		}
+		// ---- R9g: a positional list is never sorted
+		if src.ordered {
+			nSort := 0
+			var fl []*ssa.Function
+			for f := range reach {
+				fl = append(fl, f)
+			}
+			sort.Slice(fl, func(i, j int) bool { return fname(fl[i]) < fname(fl[j]) })
+			for _, f := range fl {
+				for _, b := range f.Blocks {
+					for _, in := range b.Instrs {
+						cl, ok := in.(*ssa.Call)
+						if !ok {
+							continue
+						}
+						sc := cl.Common().StaticCallee()
+						if sc == nil || (fnPkgPath(sc) != "sort" && fnPkgPath(sc) != "slices") {
+							continue
+						}
+						for _, a := range cl.Common().Args {
+							if D.has(a) {
+								nSort++
+								c.violate("R9", fmt.Sprintf("R9g:%s:reordered@%s#%d", label, fname(f), nSort), c.pos(cl.Pos()),
+									fmt.Sprintf("the user-supplied %s list is reordered in place by %s.%s: entry i of it belongs to entry i of the sibling lists (or is a position itself), so after sorting the entries are applied to other axes than the ones they were given for", src.kind, fnPkgPath(sc), sc.Name()))
+								break
+							}
+						}
+					}
+				}
+			}
+			if nSort == 0 {
+				c.discharge("R9", "R9g:"+label+":order-kept", c.pos(apply.Pos()), "no sort/slices call receives the positional "+src.kind+" list anywhere behind Apply")
+			}
 		}
 		// ---- R9c: sets of axes must be checked for duplicates (C07: "duplicate ... axes yield an error")
 		if prop == "C07" && src.kind == "axes" {
@@ -935,4 +981,229 @@ func (c *Ctx) derivesFromShape(v ssa.Value, reach map[*ssa.Function]bool, depth 
 		}
 	}
 	return false
+}
+
+// ---------------------------------------------------------------------------------------------
+// R9f — no valid axis is refused
+// ---------------------------------------------------------------------------------------------
+//
+// "negative axes allowed" / "every axis in positive and negative spelling": for every rank r in 1..4 and every
+// a in [-r, r) (Flatten: [-r, r]) the operator must not answer with an error. The partial path interpreter
+// (pinterp.go) binds the attribute field to a and the rank of inputs[0] to r and walks Apply (and Init, with
+// the attribute getter bound to a): a branch whose condition is fully determined by (a, r) and whose taken
+// edge always returns a non-nil error (or panics) refuses a valid axis. Conditions that depend on anything
+// else are unknown and never reported.
+func ruleAxisAccept(c *Ctx, prop string) {
+	type hit struct {
+		pos  token.Pos
+		fn   *ssa.Function
+		a, r int64
+	}
+	var wrong []hit
+	var wrongGot []int64
+	sinks := 0
+	runOne := func(entry *ssa.Function, args func(a int64) []pval, field func(a int64) func(*types.Named, int) (pval, bool),
+		seed func(a int64) func(*ssa.Call) (pval, bool), flatten bool, rankFree bool) (hits []hit, decided int, aborted bool) {
+		seen := map[*ssa.If]bool{}
+		seenCall := map[*ssa.Call]bool{}
+		wrong, wrongGot, sinks = nil, nil, 0
+		for r := int64(1); r <= 4; r++ {
+			if rankFree && r != 4 {
+				continue
+			}
+			hi := r - 1
+			if flatten {
+				hi = r
+			}
+			for a := -r; a <= hi; a++ {
+				a, r := a, r
+				p := &pinterp{c: c, budget: 400000}
+				if field != nil {
+					p.field = field(a)
+				}
+				if seed != nil {
+					p.callSeed = seed(a)
+				}
+				if !rankFree {
+					p.rankOf = func(k int64) (int64, bool) { return r, k == 0 }
+				}
+				p.onReject = func(fn *ssa.Function, iff *ssa.If, truth bool) {
+					if !seen[iff] {
+						seen[iff] = true
+						pos := iff.Cond.Pos()
+						if pos == token.NoPos {
+							pos = fn.Pos()
+						}
+						hits = append(hits, hit{pos, fn, a, r})
+					}
+				}
+				exp := a
+				if a < 0 {
+					exp = a + r
+				}
+				if !rankFree {
+					p.onExt = func(fn *ssa.Function, call *ssa.Call, key string, operands []pval) {
+						ct, ok := axisContracts[key]
+						if !ok || ct.arg < 0 || ct.arg >= len(operands) {
+							return
+						}
+						v := operands[ct.arg]
+						if v.k != pInt || !v.dep {
+							return
+						}
+						sinks++
+						if v.i == exp || (ct.resolves && v.i == a) {
+							return
+						}
+						if !seenCall[call] {
+							seenCall[call] = true
+							wrong = append(wrong, hit{call.Pos(), fn, a, r})
+							wrongGot = append(wrongGot, v.i)
+						}
+					}
+				}
+				p.run(entry, args(a), 0)
+				decided += p.decided
+				aborted = aborted || p.aborted
+			}
+		}
+		return
+	}
+	// controls
+	ctlBad, ctlGood := StDischarged, StDischarged
+	for _, f := range c.ctlFns {
+		if f.Name() != "BadAxisGuard" && f.Name() != "GoodAxisGuard" {
+			continue
+		}
+		hits, _, _ := runOne(f, func(a int64) []pval { return []pval{{k: pInt, i: a, dep: true}, {k: pInputs}} }, nil, nil, false, false)
+		if f.Name() == "BadAxisGuard" && len(hits) > 0 && hits[0].a == -hits[0].r {
+			ctlBad = StViolated
+		}
+		if f.Name() == "GoodAxisGuard" && len(hits) > 0 {
+			ctlGood = StViolated
+		}
+	}
+	c.add(Obligation{Rule: "R9", Key: "R9f:ctl:bad:BadAxisGuard", Status: ctlBad, Control: true, Why: "control: |axis| >= rank refuses axis == -rank"})
+	c.wantControls = append(c.wantControls, "R9f:ctl:bad:BadAxisGuard")
+	c.add(Obligation{Rule: "R9", Key: "R9f:ctl:good:GoodAxisGuard", Status: ctlGood, Control: true, Why: "control: exact two-sided range check"})
+	c.wantControls = append(c.wantControls, "R9f:ctl:good:GoodAxisGuard")
+
+	n := 0
+	for _, src := range axisSources {
+		mine := false
+		for _, p := range src.props {
+			if p == prop {
+				mine = true
+			}
+		}
+		if !mine || src.kind != "axis" || src.field == "" || !src.negOK {
+			continue
+		}
+		oi := c.opByName(src.op)
+		label := src.op + "." + src.field
+		if oi == nil {
+			c.undecided("R9", "R9f:"+label, "", "operator type "+src.op+" not found")
+			continue
+		}
+		fi := fieldIndex(oi.named, src.field)
+		if fi < 0 {
+			c.undecided("R9", "R9f:"+label, c.pos(oi.named.Obj().Pos()), "attribute field "+src.field+" no longer exists")
+			continue
+		}
+		n++
+		apply, init := oi.methods["Apply"], oi.methods["Init"]
+		named := oi.named
+		field := func(a int64) func(*types.Named, int) (pval, bool) {
+			return func(nn *types.Named, idx int) (pval, bool) {
+				if nn.Obj() == named.Obj() && idx == fi {
+					return pval{k: pInt, i: a, dep: true}, true
+				}
+				return pval{}, false
+			}
+		}
+		hits, decided, aborted := runOne(apply, func(int64) []pval { return []pval{{k: pRecv}, {k: pInputs}} }, field, nil, src.op == "Flatten", false)
+		for i, h := range wrong {
+			exp := h.a
+			if exp < 0 {
+				exp += h.r
+			}
+			c.violate("R9", fmt.Sprintf("R9f:%s:wrong-axis@%s#%d", label, fname(h.fn), i+1), c.pos(h.pos),
+				fmt.Sprintf("with %s = %d and an operand of rank %d the value handed to gorgonia as the axis is %d, not %d: another axis than the requested one is used", src.field, h.a, h.r, wrongGot[i], exp))
+		}
+		nWrong := len(wrong)
+		c.counts["R9f.axis_arguments_evaluated"] += sinks
+		// Init: the getter call whose value is stored into the field
+		var getter *ssa.Call
+		if init != nil {
+			for f := range c.reachFrom([]*ssa.Function{init}) {
+				if !isLibFn(f) {
+					continue
+				}
+				for _, b := range f.Blocks {
+					for _, in := range b.Instrs {
+						st, ok := in.(*ssa.Store)
+						if !ok {
+							continue
+						}
+						fa, ok := st.Addr.(*ssa.FieldAddr)
+						if !ok || fa.Field != fi {
+							continue
+						}
+						if nn, _ := structOfPtr(fa.X.Type()); nn == nil || nn.Obj() != named.Obj() {
+							continue
+						}
+						if cl, ok := stripConv(st.Val).(*ssa.Call); ok {
+							getter = cl
+						}
+					}
+				}
+			}
+		}
+		if os.Getenv("R9FDEBUG") != "" {
+			fmt.Printf("R9FDEBUG %s getter=%v init=%v\n", label, getter != nil, init != nil)
+		}
+		if getter != nil {
+			seed := func(a int64) func(*ssa.Call) (pval, bool) {
+				return func(cl *ssa.Call) (pval, bool) {
+					if cl == getter {
+						return pval{k: pInt, i: a, dep: true}, true
+					}
+					return pval{}, false
+				}
+			}
+			h2, d2, ab2 := runOne(init, func(int64) []pval { return []pval{{k: pRecv}, {}} }, nil, seed, src.op == "Flatten", true)
+			hits = append(hits, h2...)
+			decided += d2
+			aborted = aborted || ab2
+		}
+		sort.Slice(hits, func(i, j int) bool { return hits[i].pos < hits[j].pos })
+		for i, h := range hits {
+			c.violate("R9", fmt.Sprintf("R9f:%s:refused@%s#%d", label, fname(h.fn), i+1), c.pos(h.pos),
+				fmt.Sprintf("a valid %s is refused: with %s = %d and an operand of rank %d (valid range [%d, %d]) this branch is taken and it always ends in an error — the property allows every axis in positive and negative spelling", src.kind, src.field, h.a, h.r, -h.r, h.r-1+b2i(src.op == "Flatten")))
+		}
+		if nWrong > 0 {
+			continue
+		}
+		if len(hits) == 0 && decided == 0 {
+			c.undecided("R9", "R9f:"+label, c.pos(apply.Pos()), "no branch on the "+src.field+" attribute could be evaluated in Apply (not even its negative-axis normalisation): the way the attribute reaches its uses is not recognised")
+			continue
+		}
+		if len(hits) == 0 {
+			why := fmt.Sprintf("for every rank 1..4 and every valid spelling of %s no branch decided by (axis, rank) leads to an error (%d such branches evaluated over the table)", src.field, decided)
+			if aborted {
+				c.note("R9", "R9f:"+label, c.pos(apply.Pos()), why+"; some paths were abandoned at the step budget")
+			} else {
+				c.discharge("R9", "R9f:"+label, c.pos(apply.Pos()), why)
+			}
+		}
+		c.counts["R9f.branches_evaluated"] += decided
+	}
+	c.counts["R9f.sources"] += n
+}
+
+func b2i(b bool) int64 {
+	if b {
+		return 1
+	}
+	return 0
 }
